@@ -28,7 +28,7 @@ type scen struct {
 }
 
 func (s *scen) name() string {
-	return fmt.Sprintf("%s w%d a%d", s.Def.Name, s.Opt.Workers, s.Opt.MaxConcurrentAssets)
+	return fmt.Sprintf("%s w%d a%d retry%d redirect%d", s.Def.Name, s.Opt.Workers, s.Opt.MaxConcurrentAssets, s.Opt.MaxRetry, s.Opt.MaxRedirect)
 }
 
 func scenario(s *scen) *vsched.Scenario {
@@ -171,6 +171,8 @@ func scenarios(tier string) []scen {
 		for _, ca := range [][2]int{{1, 1}, {1, 2}} {
 			out = append(out, scen{Def: d, Opt: world.Options{Workers: ca[0], MaxConcurrentAssets: ca[1], MaxRetry: 1, MaxRedirect: 2, ExcludeHosts: []string{"excluded.example"}}, P: sweepP})
 		}
+		// tight limits: no retry, one redirect (chains are cut short, the seed must still finish once), two workers per stage
+		out = append(out, scen{Def: d, Opt: world.Options{Workers: 2, MaxConcurrentAssets: 1, MaxRetry: 0, MaxRedirect: 1, ExcludeHosts: []string{"excluded.example"}}, P: sweepP})
 	}
 	for _, ds := range world.DepthSites() {
 		s := scen{Def: ds.Def, After: ds.After}
